@@ -67,6 +67,38 @@ def one_case(rng, malformed=False, kinds=None, nedits=None):
                 raised=raised, specs=specs)
 
 
+def edit_del_new(spec, e):
+    """labels removed / put in place by a local edit (Spec.edit_del / edit_new)"""
+    k = e[0]
+    if k in ("replace", "delete", "wrap"):
+        ks = I.spec_kids(I.spec_get(spec, e[1]), e[2])
+        dele = [x[0] for x in ks[e[3]:e[4]]]
+        new = [x[0] for x in e[5]] if k == "replace" else ([] if k == "delete" else [e[5]])
+        return dele, new
+    if k == "insert":
+        return [], [x[0] for x in e[3]]
+    return [], []
+
+
+def same_e_fails(e, spec, c, spec2, c2):
+    """None if Spec.same_e holds between (spec, c) and (spec2, c2), else a description"""
+    a = I.resolve_spec(spec, c)
+    b = I.resolve_spec(spec2, c2)
+    if a is None or b is None:
+        return "dangling"
+    if c[0] != c2[0]:
+        return "cursor kind changed"
+    if c[0] in ("n", "g"):
+        return None if a == b else "denotes %r, was %r" % (b, a)
+    if a == b:
+        return None
+    dele, new = edit_del_new(spec, e)
+    for i in range(len(a) + 1):
+        if a[i:i + len(dele)] == dele and a[:i] + new + a[i + len(dele):] == b:
+            return None
+    return "block labels %r, were %r (del %r new %r)" % (b, a, dele, new)
+
+
 def strip_wrap(e):
     return e[:8] if e[0] == "wrap" else e
 
@@ -112,6 +144,17 @@ def compare_case(case, mres):
             if (den is not None) != inb:
                 div.append({"what": "inb flag differs", "cursor": c, "fwd": ir, "model_inb": inb, "impl_den": den})
                 break
+            # where the hypotheses of theorem C06_edit hold for this step, its CONCLUSION is checked on the
+            # real result: in bounds, and same statements modulo the edit (Spec.same_e)
+            if len(mr) > 4 and mr[4] == "1":
+                stats["thm_covered"] = stats.get("thm_covered", 0) + 1
+                prev = c if k == 0 else isteps[k - 1]
+                why = same_e_fails(case["edits"][k], case["specs"][k], prev, case["specs"][k + 1], ir)
+                if why:
+                    stats["thm_conclusion_fails"] = stats.get("thm_conclusion_fails", 0) + 1
+                    div.append({"what": "conclusion of C06_edit fails on the real result: " + why,
+                                "cursor": c, "step": k, "fwd": ir})
+                    break
             if k == len(msteps) - 1:
                 stats["ok"] += 1
                 # property oracle at the internal-API level (counted, not reported: see the _refuted theorems)
@@ -122,7 +165,7 @@ def compare_case(case, mres):
     return div, stats
 
 
-def run(ck, ncases, stream, malformed=False, kinds=None, fixed=False, batch=200):
+def run(ck, ncases, stream, malformed=False, kinds=None, batch=200):
     rng = random.Random(ck.rng.getrandbits(64))
     done = 0
     totals = {}
@@ -132,8 +175,7 @@ def run(ck, ncases, stream, malformed=False, kinds=None, fixed=False, batch=200)
             c = one_case(rng, malformed=malformed, kinds=kinds)
             if c is not None:
                 cases.append(c)
-        mres = I.run_model([(c["spec0"], [strip_wrap(e) for e in c["edits"]], c["cursors"]) for c in cases],
-                           fixed=fixed)
+        mres = I.run_model([(c["spec0"], [strip_wrap(e) for e in c["edits"]], c["cursors"]) for c in cases])
         for c, m in zip(cases, mres):
             tag = "+".join(e[0] for e in c["edits"]) + ("!" + c["raised"] if c["raised"] else "")
             key = (I.spec_sexp(c["spec0"]), [I.edit_sexp(strip_wrap(e)) for e in c["edits"]])
